@@ -125,6 +125,17 @@ def check_next(ts, now, p, du, out, stats, fps, sched=None):
         out.append(_viol("next_not_on_grid", "grid", ctx + f" sched={sched}"))
     if not (now < nxt <= now + p):
         out.append(_viol("next_window", "window", ctx))
+    # the schedule is a function of time base, period and clock: how often the current run was retried is not part of it
+    from repid.data._parameters import RetriesProperties
+
+    try:
+        tried = Parameters(delay=DelayProperties(delay_until=du, defer_by=p, next_execution_time=sched), timestamp=ts,
+                           retries=RetriesProperties(max_amount=5, already_tried=1 + stats["next_evals"] % 3)).compute_next_execution_time
+        stats["retried_run_evals"] += 1
+        if tried != nxt:
+            out.append(_viol("next_not_on_grid", "retried-run", ctx + f": the same message after a retry (already_tried > 0) is scheduled for {tried}"))
+    except Exception as exc:  # noqa: BLE001
+        out.append(_viol("next_raises", "retried-run", f"{ctx}: {exc!r}"))
     # the successor actually handed to the broker (what a reschedule stores) follows the same arithmetic: judged against
     # the ORIGINAL message's time base, because the copy's own timestamp is the restarted clock
     prep = getattr(params, "_prepare_reschedule", None)
